@@ -137,6 +137,23 @@ pub enum CopyMode {
     All(u32),
     Dirs(u32),
     Files(u32),
+    /// two chmod options given one after the other on the same builder (kind 0 all, 1 dirs, 2 files):
+    /// the later one replaces the earlier one completely
+    Two(u8, u32, u8, u32),
+}
+
+impl CopyMode {
+    /// the single option a sequence of options amounts to
+    pub fn effective(self) -> CopyMode {
+        match self {
+            CopyMode::Two(_, _, k, m) => match k % 3 {
+                0 => CopyMode::All(m),
+                1 => CopyMode::Dirs(m),
+                _ => CopyMode::Files(m),
+            },
+            x => x,
+        }
+    }
 }
 
 #[derive(Clone, PartialEq, Eq, Debug, Hash, Serialize, Deserialize)]
@@ -204,6 +221,9 @@ pub enum Op {
     HWrite(u8, Vec<u8>),
     HFlush(u8),
     HDrop(u8),
+    /// a builder call (chmod_b / chown_b / copy_b) whose exec() happens after the cwd was changed to the
+    /// given directory: build, set_cwd, exec as one step
+    Late(Box<Op>, String),
 }
 
 impl Op {
@@ -264,6 +284,11 @@ impl Op {
             Op::HWrite(..) => "handle-write",
             Op::HFlush(..) => "handle-flush",
             Op::HDrop(..) => "handle-drop",
+            Op::Late(inner, _) => match **inner {
+                Op::ChmodB(..) => "chmod_b-exec-after-set_cwd",
+                Op::ChownB(..) => "chown_b-exec-after-set_cwd",
+                _ => "copy_b-exec-after-set_cwd",
+            },
         }
     }
     /// literal path arguments in call order
@@ -279,6 +304,7 @@ impl Op {
             Copy(a, b) | CopyB(a, b, _) | MoveP(a, b) | Symlink(a, b) => vec![a.as_str(), b.as_str()],
             HOpen(_, _, p) => vec![p.as_str()],
             Cwd | Root | HWrite(..) | HFlush(..) | HDrop(..) => vec![],
+            Late(inner, _) => inner.paths(),
         }
     }
     pub fn is_mutator(&self) -> bool {
@@ -287,7 +313,7 @@ impl Op {
             self,
             Mkfile(..) | MkfileM(..) | MkdirP(..) | MkdirM(..) | WriteAll(..) | AppendAll(..) | WriteLines(..) | AppendLine(..)
                 | AppendLines(..) | WriteH(..) | AppendH(..) | Chmod(..) | ChmodB(..) | Chown(..) | ChownB(..) | Copy(..)
-                | CopyB(..) | MoveP(..) | Remove(..) | RemoveAll(..) | SetCwd(..) | Symlink(..) | HOpen(..) | HWrite(..) | HFlush(..) | HDrop(..)
+                | CopyB(..) | MoveP(..) | Remove(..) | RemoveAll(..) | SetCwd(..) | Symlink(..) | HOpen(..) | HWrite(..) | HFlush(..) | HDrop(..) | Late(..)
         )
     }
 }
